@@ -6,16 +6,16 @@ from .base import Verdict, sig_of, crash_check
 ID = "C11"
 LEVEL = "exploration"
 RUNS = (60000, 1200000)
-RULE = ("one seeded history of 3-60 create/set/get/get-default/list calls over 5 sections x 5 keys on an object from one of four "
+RULE = ("one seeded history of 3-60 create/set/get/get-default/list calls over 7 sections x 7 keys (incl. names that differ only in case or are prefixes of each other) on an object from one of four "
         "constructors (or a parsed plain-profile file with duplicate keys), checked call by call against an ordered-map model; "
         "non-trivial = history with at least one overwrite, one lookup miss and growth past the 8 pre-allocated entries or past the "
         "parsed length; distinct = distinct (constructor, op-kind sequence class, #entries, #sections, overwrite/miss/growth flags)")
 
-SECS = ["s1", "s2", "Sec 3", "x", "S"]
-KEYS = ["a", "b", "key c", "d", "E"]
+SECS = ["s1", "s2", "Sec 3", "x", "S", "s", "s1x"]        # incl. names that differ only in case / are prefixes of each other
+KEYS = ["a", "b", "key c", "d", "E", "A", "ab"]
 NOOBJ = 99
 LONG = ["L" * 300, "x" * 1100 + " y", "seg " * 600, "k" * 2500]
-VALS = LONG + ["\"quoted text\"", "\"\"", "\"", "'single'", "\"a\" and \"b\"", "caf\xe9", "", "v", "hello world", " padded ", "a=b", "# not a comment", "\"q\"", "[x]", "1", "true", "0x10", "multi\nline", "tab\there", "Yes Please"]
+VALS = LONG + ["\"quoted text\"", "\"\"", "\"", "'single'", "\"a\" and \"b\"", "caf\xe9", "100%", "%s%n%d", "back\\slash\\", "ff\x0cvt\x0bcr\rmid", "", "v", "hello world", " padded ", "a=b", "# not a comment", "\"q\"", "[x]", "1", "true", "0x10", "multi\nline", "tab\there", "Yes Please"]
 
 
 def spell(rng, s):
@@ -46,8 +46,8 @@ def gen_world(rng, i, tier):
     if rng.chance(0.08):
         uni_k = uni_k + rng.subset(["t ", " l", "tab\t", "t", "l"], 2, 4)     # a key is any non-empty text: outer blanks belong to it
     if rng.chance(0.05):
-        uni_k = uni_k + ["K" * rng.pick([200, 1030, 3000])]      # long (but far below BUFSIZ) key and section names
-        uni_s = uni_s + ["S" * rng.pick([200, 1030, 3000])]
+        uni_k = uni_k + ["K" * rng.pick([200, 1030, 3000, 8191, 8192, 8193, 20000])]      # long key and section names, also around BUFSIZ
+        uni_s = uni_s + ["S" * rng.pick([200, 1030, 3000, 8191, 8192, 8193, 20000])]
     uid = 0
     have = set((e[0], e[1]) for e in w.get("file", []))
     for _ in range(n):
